@@ -357,6 +357,18 @@ func (p *prover) canon(v ssa.Value) string {
 			return "!(" + p.canon(x.X) + ")"
 		}
 		if x.Op == token.MUL {
+			switch x.X.(type) {
+			case *ssa.Alloc, *ssa.FreeVar:
+				if cv := cellValue(x.X); cv != nil {
+					if ci, ok := cv.(ssa.Instruction); ok && ci.Parent() == p.fn {
+						return p.canon(cv)
+					}
+					if cp, ok := cv.(*ssa.Parameter); ok && cp.Parent() == p.fn {
+						return p.canon(cv)
+					}
+					return "cap:" + x.X.Name() // a once-assigned variable of the enclosing function
+				}
+			}
 			if g, ok := x.X.(*ssa.Global); ok && p.ix.c.immutableGlobalHeader(g) {
 				return "gv:" + g.Pkg.Pkg.Path() + "." + g.Name() // every load of a never-reassigned variable is the same value
 			}
